@@ -165,6 +165,16 @@ pub fn tool(cmd: &str, args: &[String]) -> i32 {
             }
             0
         }
+        "verify-boundary" => {
+            // verify-boundary <512|1024> <delta>: exit 3 if the verdict differs from Algorithm 16
+            let n: usize = args[0].parse().unwrap();
+            let delta: i64 = args[1].parse().unwrap();
+            let (got, norm) = if n == 512 { crate::falcon::verif::verify_at_boundary::<512>(delta) }
+                              else { crate::falcon::verif::verify_at_boundary::<1024>(delta) };
+            let expect = delta <= 0;
+            println!("verify at squared norm {} (= floor(beta^2) {:+}): returned {}, Algorithm 16 says {}", norm, delta, got, expect);
+            if got != expect { println!("VERDICT-DIFFERS"); 3 } else { 0 }
+        }
         _ => {
             eprintln!("unknown subcommand {}", cmd);
             2
